@@ -464,8 +464,9 @@ func (r *c01Reader) Checkpoint() [][]byte {
 // ---------------------------------------------------------------- reference handler (state = ghost log)
 
 type c01Handler struct {
-	w  *c01World
-	wk *c01Worker
+	w       *c01World
+	wk      *c01Worker
+	batches int
 }
 
 func (h *c01Handler) KeyEventBatch(ctx context.Context, events [][]byte) ([][]*handlerpb.KeyedEvent, error) {
@@ -542,6 +543,18 @@ func (h *c01Handler) ProcessEventBatch(ctx context.Context, req *handlerpb.Proce
 		}
 		muts[key] = append(muts[key], &handlerpb.StateMutation{Mutation: &handlerpb.StateMutation_Put{
 			Put: &handlerpb.PutMutation{Key: pos, Value: []byte(val)}}})
+	}
+	// optionally seal the memtable now and then, so that the state also lives in sstables (flush, compaction,
+	// checkpoints referencing tables) and not only in the memtable and the WAL
+	if w.cfg.rot > 0 && !zombie && len(order) > 0 {
+		h.batches++
+		// never the first batch: an empty memtable must not be sealed (the code only seals full ones)
+		if h.batches > 1 && h.batches%w.cfg.rot == 0 {
+			func() {
+				defer func() { recover() }()
+				h.wk.w.Operator.VerifDB().VerifRotate()
+			}()
+		}
 	}
 	resp := &handlerpb.ProcessEventBatchResponse{}
 	for _, key := range order {
@@ -1003,8 +1016,19 @@ func (w *c01World) heartbeat() {
 	}
 }
 
+var c01Sweep sync.Once
+
 func newC01World(n, kgc, nsplits, batch, readBatch, nkeys, rot int) (*c01World, error) {
 	slog.SetDefault(slog.New(slog.NewTextHandler(c01Discard{}, nil)))
+	c01Sweep.Do(func() { // working directories left by processes that ended more than two minutes ago
+		if ents, err := os.ReadDir(os.TempDir()); err == nil {
+			for _, e := range ents {
+				if info, err := e.Info(); err == nil && strings.HasPrefix(e.Name(), "verif-c01-") && time.Since(info.ModTime()) > 2*time.Minute {
+					os.RemoveAll(os.TempDir() + "/" + e.Name())
+				}
+			}
+		}
+	})
 	dir, err := os.MkdirTemp("", "verif-c01-")
 	if err != nil {
 		return nil, err
@@ -1049,8 +1073,6 @@ func (w *c01World) close() {
 		}
 		wk.cancel()
 	}
-	go func() {
-		time.Sleep(2 * time.Second) // let background DKV tasks finish before the directory disappears
-		os.RemoveAll(w.dir)
-	}()
+	// The directory is not removed now: background DKV tasks of the halted operators (flush, compaction) may
+	// still write into it and panic when it is gone. Directories of earlier processes are removed at start-up.
 }
